@@ -171,14 +171,14 @@ class AbstractDateTime(AnyAtomicType):
 
         if hour == 24 and minute == second == microsecond == 0:
             hour = 0
-            if year == 9999 and month == 12 and day == 31:
+            if month == 12 and day == 31 and not 1 <= year < 9999:
+                # the proxy datetime cannot carry over to the next year
                 delta = _ZERO_DELTA
-                year = 10000
+                year = year + 1 if year != -1 else 1
                 month = 1
                 day = 1
             else:
                 delta = _1DAY_DELTA
-                hour = 0
         else:
             delta = _ZERO_DELTA
 
@@ -196,7 +196,8 @@ class AbstractDateTime(AnyAtomicType):
             raise OverflowError("year overflow")
         else:
             self._year = year
-            if isleap(year + bool(self._xsd_version != '1.0')):
+            # BCE years are stored without a year 0: -1 is 1 BCE, a leap year
+            if isleap(year + 1 if year < 0 else year):
                 self._dt = datetime.datetime(4, month, day, hour, minute,
                                              second, microsecond, tzinfo)
             else:
